@@ -182,6 +182,63 @@ func isCondMismatchQuote(summary, detail string, cans []string) bool {
 	return found && findCanary(rest, cans) == ""
 }
 
+// condArmsUnmarked establishes the CAUSE of that finding on the real code: some conditional
+// of the source has two results NEITHER of which carries a mark anywhere - so the guard of
+// fix d4cc54a (describe only when no result is marked) rightly lets the description through -
+// while the TYPE of one of them names an attribute that contains a canary (a typed unknown an
+// inner failing expression returned without its operands' marks).  A description printed
+// although a result IS marked (e.g. a shallow instead of a deep mark test) is not this
+// finding and keeps the generic kind.
+func condArmsUnmarked(ci *caseInput, cans []string) (found bool) {
+	if ci.mode != "expr" {
+		return false
+	}
+	expr, pd := hclsyntax.ParseExpression([]byte(ci.src), fileName, hcl.InitialPos)
+	if pd.HasErrors() {
+		return false
+	}
+	ctx := ci.evalCtx()
+	var names func(t cty.Type) bool
+	names = func(t cty.Type) bool {
+		switch {
+		case t.IsObjectType():
+			for n, at := range t.AttributeTypes() {
+				if findCanary(n, cans) != "" || names(at) {
+					return true
+				}
+			}
+		case t.IsTupleType():
+			for _, et := range t.TupleElementTypes() {
+				if names(et) {
+					return true
+				}
+			}
+		case t.IsCollectionType():
+			return names(t.ElementType())
+		}
+		return false
+	}
+	_ = hclsyntax.VisitAll(expr, func(n hclsyntax.Node) hcl.Diagnostics {
+		ce, ok := n.(*hclsyntax.ConditionalExpr)
+		if !ok {
+			return nil
+		}
+		func() {
+			defer func() { _ = recover() }()
+			tv, _ := ce.TrueResult.Value(ctx)
+			fv, _ := ce.FalseResult.Value(ctx)
+			if tv.ContainsMarked() || fv.ContainsMarked() {
+				return
+			}
+			if names(tv.Type()) || names(fv.Type()) {
+				found = true
+			}
+		}()
+		return nil
+	})
+	return found
+}
+
 // ---- (a) pushdown --------------------------------------------------------------------
 
 func pushdown(v cty.Value, inherited cty.ValueMarks) cty.Value {
@@ -625,7 +682,7 @@ func classify(ci *caseInput, hits []hit, note func(string)) []hit {
 			h.kind0, h.kind = h.kind, kindConv
 			continue
 		}
-		if h.kind == "canary-in-detail" && isCondMismatchQuote(h.summary, h.where, cans) {
+		if h.kind == "canary-in-detail" && isCondMismatchQuote(h.summary, h.where, cans) && condArmsUnmarked(ci, cans) {
 			h.kind0, h.kind = h.kind, kindCond
 			continue
 		}
